@@ -147,6 +147,12 @@ def _mod_ladder4(p):
     return _mod_ladder(p, 4)
 
 
+def _mod_implied(p):
+    """r latch and p := p | r: the trap spaces {p=1} and {p=1,r=1} below any node form a triangle with it."""
+    r, q = p + "r", p + "p"
+    return [r, q], {r: V(r), q: OR(V(q), V(r))}
+
+
 MODULES = [
     ("switch", _mod_switch, 4),
     ("inhib", _mod_inhib, 2),
@@ -156,6 +162,8 @@ MODULES = [
     ("maa2", _mod_maa2, 3),
     ("source", _mod_source, 2),
     ("xor", _mod_xor, 1),
+    ("latch", _mod_selfpos, 3),
+    ("implied", _mod_implied, 2),
     ("ladder", _mod_ladder, 2),
     ("ladder4", _mod_ladder4, 1),
 ]
